@@ -330,3 +330,45 @@ Example do_parallel_dostar_sequential :
                     | Ok (VList [VInt 3; VInt 13]), Ok (VList [VInt 3; VInt 16]) => true | _, _ => false end)
           [Slip; Ref; Chk] = true.
 Proof. vm_compute; reflexivity. Qed.
+
+(* Repair C01-22.  A lambda expression called where it stands - the lambda form ((lambda ps body) a ..), or
+   (funcall (lambda ps body) a ..), with #' or with function: all are EFuncall (ELambda ps body) [a; ..] - makes its
+   closure over the scope of THIS evaluation: the function called is (ps, body, sc) with sc the scope the form is
+   evaluated in, whatever the state, i.e. whatever was evaluated before at the same code position.  (ListToFunc kept
+   the closure of the first evaluation in the function object cached in the code.) *)
+Lemma inline_lambda_call : forall m n st sc ps body es v st',
+  eval m (S (S n)) st sc (EFuncall (ELambda ps body) es) = (Ok v, st') <->
+  exists vs st1, args_ltr m (eval m (S n)) sc st es vs st1 /\
+    apply_fn m (eval m (S n)) st1 (CClo ps [] body sc) vs = (Ok v, st').
+Proof.
+  intros m n st sc ps body es v st'. rewrite funcall_order. split.
+  - intros (fv & vs & st1 & c & Ha & Hr & Hp).
+    inversion Ha as [|s0 e0 es0 v0 a st2 vs0 s' H1 H2 H3]; subst.
+    simpl in H1. inversion H1; subst. unfold arg_red in H2. simpl in H2. inversion H2; subst.
+    simpl in Hr. inversion Hr; subst. exists vs, st1. split; assumption.
+  - intros (vs & st1 & Ha & Hp). exists (VClo ps [] body sc), vs, st1, (CClo ps [] body sc).
+    split; [|split; [reflexivity|exact Hp]].
+    econstructor; [simpl; reflexivity | reflexivity | exact Ha].
+Qed.
+
+(* the former witnesses, in the three modes:
+   (let ((r nil)) (dotimes (i 3) (let ((n i)) (setq r (cons ((lambda (x) (+ x n)) 1) r)))) r)  =>  (3 2 1)   [was (1 1 1)]
+   (defun f (k) (let ((n k)) (list ((lambda (x) (setq n (+ n x))) 1) n))) (list (f 10) (f 20))
+                                                                   =>  ((11 11) (21 21))   [was ((11 11) (12 20))] *)
+Definition w_lambda_form_loop :=
+  [ELet [("r", EConst DNil)]
+     [EDotimes "i" (I 3) None
+        [ELet [("n", EVar "i")]
+           [ESetq [("r", EPrim PCons [EFuncall (ELambda ["x"] [EPrim PAdd [EVar "x"; EVar "n"]]) [I 1]; EVar "r"])]]];
+      EVar "r"]].
+Definition w_lambda_form_defun :=
+  [EDefun "f" ["k"]
+     [ELet [("n", EVar "k")]
+        [EPrim PList [EFuncall (ELambda ["x"] [ESetq [("n", EPrim PAdd [EVar "n"; EVar "x"])]]) [I 1]; EVar "n"]]];
+   EPrim PList [ECall "f" [I 10]; ECall "f" [I 20]]].
+Example lambda_form_each_evaluation :
+  forallb (fun m => match fst (run m 60 w_lambda_form_loop), fst (run m 60 w_lambda_form_defun) with
+                    | Ok (VList [VInt 3; VInt 2; VInt 1]),
+                      Ok (VList [VList [VInt 11; VInt 11]; VList [VInt 21; VInt 21]]) => true
+                    | _, _ => false end) [Slip; Ref; Chk] = true.
+Proof. vm_compute; reflexivity. Qed.
